@@ -48,8 +48,79 @@ fn apply_edits(m: &mut Module, ids: &InputIds, input: &[u8], rng: &mut Rng, log:
         .map(|d| d.types.iter().map(|s| (s.params.iter().map(to_vt).collect(), s.results.iter().map(to_vt).collect())).collect())
         .unwrap_or_default();
     let mut deleted_funcs: Vec<FunctionId> = Vec::new();
+    // entities an earlier edit of this script started to reference from code: not to be deleted afterwards
+    let mut pinned_globals: Vec<GlobalId> = Vec::new();
+    let mut pinned_datas: Vec<walrus::DataId> = Vec::new();
     for step in 0..n {
-        match rng.below(16) {
+        match rng.below(18) {
+            14 | 15 => {
+                // new references from code: instructions naming an existing segment, function, global, table or
+                // memory are put in front of a function body (operand-neutral sequences)
+                let locals: Vec<FunctionId> = m.funcs.iter_local().map(|(id, _)| id).filter(|f| !deleted_funcs.contains(f)).collect();
+                if locals.is_empty() {
+                    continue;
+                }
+                let target = *rng.pick(&locals);
+                let datas: Vec<walrus::DataId> = m.data.iter().map(|d| d.id()).collect();
+                let elems: Vec<walrus::ElementId> = m.elements.iter().map(|d| d.id()).collect();
+                let fs: Vec<FunctionId> = m.funcs.iter().map(|f| f.id()).filter(|f| !deleted_funcs.contains(f)).collect();
+                let gs: Vec<GlobalId> = m.globals.iter().map(|g| g.id()).collect();
+                let ms: Vec<(MemoryId, bool)> = m.memories.iter().map(|g| (g.id(), g.memory64)).collect();
+                let ts: Vec<TableId> = m.tables.iter().map(|g| g.id()).collect();
+                let mut seq: Vec<walrus::ir::Instr> = Vec::new();
+                let what;
+                match rng.below(7) {
+                    0 if !datas.is_empty() => {
+                        let d = *rng.pick(&datas);
+                        pinned_datas.push(d);
+                        seq.push(walrus::ir::DataDrop { data: d }.into());
+                        what = "data.drop";
+                    }
+                    1 if !elems.is_empty() => {
+                        seq.push(walrus::ir::ElemDrop { elem: *rng.pick(&elems) }.into());
+                        what = "elem.drop";
+                    }
+                    2 if !datas.is_empty() && !ms.is_empty() => {
+                        let (mem, is64) = *rng.pick(&ms);
+                        seq.push(walrus::ir::Const { value: if is64 { Value::I64(0) } else { Value::I32(0) } }.into());
+                        seq.push(walrus::ir::Const { value: Value::I32(0) }.into());
+                        seq.push(walrus::ir::Const { value: Value::I32(0) }.into());
+                        let d = *rng.pick(&datas);
+                        pinned_datas.push(d);
+                        seq.push(walrus::ir::MemoryInit { memory: mem, data: d }.into());
+                        what = "memory.init";
+                    }
+                    3 if !fs.is_empty() => {
+                        seq.push(walrus::ir::RefFunc { func: *rng.pick(&fs) }.into());
+                        seq.push(walrus::ir::Drop {}.into());
+                        what = "ref.func";
+                    }
+                    4 if !gs.is_empty() => {
+                        let g = *rng.pick(&gs);
+                        pinned_globals.push(g);
+                        seq.push(walrus::ir::GlobalGet { global: g }.into());
+                        seq.push(walrus::ir::Drop {}.into());
+                        what = "global.get";
+                    }
+                    5 if !ts.is_empty() => {
+                        seq.push(walrus::ir::TableSize { table: *rng.pick(&ts) }.into());
+                        seq.push(walrus::ir::Drop {}.into());
+                        what = "table.size";
+                    }
+                    _ if !ms.is_empty() => {
+                        seq.push(walrus::ir::MemorySize { memory: rng.pick(&ms).0 }.into());
+                        seq.push(walrus::ir::Drop {}.into());
+                        what = "memory.size";
+                    }
+                    _ => continue,
+                }
+                let f = m.funcs.get_mut(target).kind.unwrap_local_mut();
+                let mut b = f.builder_mut().func_body();
+                for (i, ins) in seq.into_iter().enumerate() {
+                    b.instr_at(i, ins);
+                }
+                log.push(format!("insert-reference({})", what));
+            }
             0 => {
                 // export an existing entity under a fresh name
                 let name = format!("wv_export_{}", step);
@@ -268,7 +339,7 @@ fn apply_edits(m: &mut Module, ids: &InputIds, input: &[u8], rng: &mut Rng, log:
                                 let id = ids.globals[*rng.pick(&c)];
                                 let live = m.globals.iter().any(|g| g.id() == id);
                                 let used_now = m.exports.iter().any(|e| matches!(e.item, ExportItem::Global(g) if g == id));
-                                if live && !used_now {
+                                if live && !used_now && !pinned_globals.contains(&id) {
                                     let imp = m.imports.iter().find(|i| matches!(i.kind, ImportKind::Global(g) if g == id)).map(|i| i.id());
                                     if let Some(imp) = imp {
                                         m.imports.delete(imp);
@@ -284,7 +355,7 @@ fn apply_edits(m: &mut Module, ids: &InputIds, input: &[u8], rng: &mut Rng, log:
                                 let id = ids.data[*rng.pick(&c)];
                                 let live = m.data.iter().any(|d| d.id() == id);
                                 let passive = live && m.data.get(id).is_passive();
-                                if passive {
+                                if passive && !pinned_datas.contains(&id) {
                                     m.data.delete(id);
                                     log.push("delete-unreferenced-passive-data".into());
                                 }
